@@ -7,7 +7,10 @@ RULE = ("random cases: a configuration (latency in {0,1,2,7,100,101} ms, fee in 
         "account_snapshot directly; a quarter of the direct cases are ill-formed (an instrument asset without balance, or total != free) and end at the first "
         "order that can panic. Orders: buy/sell, market 90 % / limit 10 %, known / unknown instrument, prices incl. 0 and negative, quantities incl. 0, negative "
         "and 3 decimal places. Thorough additionally enumerates every sequence of length <= 4 over 7 request symbols (6 for direct) on one instrument in both "
-        "modes (4 356 cases). A case is distinct by the SHA-1 of its op lines and non-trivial when the implementation's observation blocks differ at least once")
+        "modes (4 356 cases). Every 10th random case is of the LARGE magnitude class (prices up to 1e6 with 2 decimals, quantities up to 1e4 with 3 decimals, balances up "
+        "to 1e12: accepted notionals far above 1e4), every 10th of the SMALL class (prices / quantities / balances between 1e-9 and 1e-2, 6-9 decimals); both draw the fee "
+        "from {0, 0.001, 0.0025, 0.075, 0.333, 0.5, 1, 1.5, 2, 5, -0.5, -2}; all classes stay inside what rust_decimal computes exactly (products of at most 20 significant "
+        "digits and 18 decimals). A case is distinct by the SHA-1 of its op lines and non-trivial when the implementation's observation blocks differ at least once")
 ASSUMPTIONS = [
     "configuration well formed: every initial balance has total = free and both assets of every configured instrument have a balance "
     "(otherwise MockExchange::open_order panics on its own assert_eq!/expect; model and harness both report `panic`, the spec is silent)",
